@@ -247,20 +247,36 @@ def run_sequence(inp):
             intf._q.put(f)
     recs = []
     targets = {}      # one Target object per (address, routing) for the whole history
+
+    def resolve_last(e):
+        sent = U.sent_of(kind, intf)
+        return ('F', U.reply_to_wire(sent[-1], bytes.fromhex(e[1]))) if sent and len(sent[-1]) >= 6 else ('N',)
+    script.resolver = resolve_last
     for j, r in enumerate(inp['reqs']):
-        events = [tuple([e[0]] + ([bytes.fromhex(e[1])] if e[0] == 'F' else [])) for e in r['events']]
+        events = []
+        for e in r['events']:
+            if e[0] == 'F':
+                events.append(['F', bytes.fromhex(e[1])])
+            elif e[0] == 'R':      # late reply to the frame written in step e[1]
+                if e[1] < len(recs) and recs[e[1]]['sent'] and len(recs[e[1]]['sent'][0]) >= 6:
+                    events.append(['F', U.reply_to_wire(recs[e[1]]['sent'][0], bytes.fromhex(e[2])), 'late'])
+            else:
+                events.append(list(e))
         carry = script.unread()
         script.extend(events)
-        pending = list(script.events)
         U.clear_sent(kind, intf)
         q_before = U.rmcp_queue(intf) if kind == 'rmcp' else []
-        result = U.call(intf, r['rq'][0], r.get('routing') or None, r['rq'][1], r['rq'][2], r['rq'][3],
-                        bytes.fromhex(r['p']), targets=targets)
+        if r.get('probe'):
+            result = U.probe(intf, r['rq'][0], targets=targets)
+        else:
+            result = U.call(intf, r['rq'][0], r.get('routing') or None, r['rq'][1], r['rq'][2], r['rq'][3],
+                            bytes.fromhex(r['p']), targets=targets)
+        pending = list(script.events)           # lazily resolved events are resolved in place by now
         consumed = pending[:len(pending) - script.unread()]
         recs.append({'result': result, 'sent': U.sent_of(kind, intf),
                      'qlen': len(U.rmcp_queue(intf)) if kind == 'rmcp' else 0,
                      'q_before': q_before, 'carry': carry, 'pending': pending, 'consumed': consumed,
-                     'seq': intf.next_sequence_number})
+                     'own': events, 'seq': intf.next_sequence_number})
     return recs, intf.next_sequence_number, script.unread()
 
 
@@ -268,18 +284,40 @@ def judge_sequence(inp, recs):
     kind, mr, ign = inp['kind'], inp['mr'], inp['ign']
     bad = []
     prev_seq = None
+    nreq = 0
+    has_probe = any(r.get('probe') for r in inp['reqs'])
     for j, (r, rec) in enumerate(zip(inp['reqs'], recs)):
-        seq = (inp['seq0'] + j + 1) % 64
+        is_probe = bool(r.get('probe'))
+        if not is_probe:
+            nreq += 1
+        seq = (inp['seq0'] + nreq) % 64
         h = request_header(kind, inp['slave'], seq, r['rq'], r.get('routing'))
-        # consecutive requests carry different sequence numbers: seq_{k+1} = seq_k + 1 mod 64
+        # consecutive requests carry different sequence numbers (seq_{k+1} = seq_k + 1 mod 64 in a history of
+        # plain requests; with probes in between: different from the frame written before)
         for f in rec['sent']:
             got = f[4] >> 2
-            if got != seq or (prev_seq is not None and got == prev_seq):
+            if is_probe:
+                if prev_seq is not None and got == prev_seq:
+                    bad.append(('%s:probe-reuses-sequence-number' % kind,
+                                'step %d: is_ipmc_accessible writes its Get Device ID with sequence number %d, the '
+                                'number of the frame written before it' % (j, got)))
+            elif (not has_probe and got != seq) or (prev_seq is not None and got == prev_seq):
                 bad.append(('%s:sequence-number-not-incremented' % kind,
-                            'request %d written with sequence number %d, expected %d (previous %r)'
+                            'request %d written with sequence number %d, expected %d (previous frame: %r)'
                             % (j, got, seq, prev_seq)))
         if rec['sent']:
             prev_seq = rec['sent'][0][4] >> 2
+        # data of a late reply to an EARLIER step is never the answer
+        late = [e for e in rec['consumed'] if e[0] == 'F' and len(e) > 2]
+        # (with rmcp_ignore_rq_seq the sequence number is not compared: accepting such a reply is the quirk)
+        if not is_probe and not ign and not isinstance(rec['result'], Exception):
+            for e in late:
+                if bytes(e[1])[6:-1] == bytes(rec['result']):
+                    bad.append(('%s:returned-late-reply-to-earlier-request' % kind,
+                                'step %d returned %s, the data of the late reply %s to an earlier step'
+                                % (j, bytes(rec['result']).hex(), bytes(e[1]).hex())))
+        if is_probe:
+            continue      # returns no data; its sequence number is judged above
         # frames the HARNESS put on the RMCP queue (to exercise the get path) count as received; frames the
         # code itself left there do not excuse anything
         prefilled = rec['q_before'] if inp.get('queue0') else []
@@ -493,8 +531,36 @@ def run(ctx):
         reqs, hist = [], []
         queue0 = []
         same_target = rng.random() < 0.6      # all requests of the history go through ONE Target object
+        # histories with accessibility probes (is_ipmc_accessible) between the requests; answers to a probe or
+        # to a request may arrive late, i.e. during a later step
+        probes = (not bridged) and rng.random() < (0.45 if kind != 'rmcp' else 0.08)
+        if probes:
+            same_target = True
+            nreq = rng.randrange(2, 7)
         rs_sa0, routing0 = None, None
         for j in range(nreq):
+            if probes and j >= 0:
+                if rs_sa0 is None:
+                    rs_sa0 = rng.choice([0x20, 0x72, rng.randrange(1, 256)])
+                tag = bytes([0, 0x40 + j, rng.randrange(256)])
+                late = [['R', i, bytes([0, 0x80 + i, rng.randrange(256)]).hex()] for i in range(j)
+                        if rng.random() < (0.6 if i == j - 1 else 0.15)]
+                is_probe = rng.random() < 0.4
+                if is_probe:
+                    rq, p = [rs_sa0, 0, 6, 1], b''
+                else:
+                    rq = [rs_sa0, 0, 6, 1] if rng.random() < 0.6 else [rs_sa0, rng.randrange(4), rng.randrange(0, 64, 2),
+                                                                      rng.choice([1, 2, 0x35])]
+                    p = bytes(rng.randrange(256) for _ in range(rng.choice([0, 0, 1, 3])))
+                style = rng.random()
+                own = [] if style < 0.3 else [['N']] if style < 0.4 else [['L', tag.hex()]] if style < 0.85 else \
+                    [['E']] if style < 0.9 else [['L', tag.hex()], ['L', tag.hex()]]
+                if rng.random() < 0.2:
+                    hx = request_header(kind, slave, (seq0 + j + 1) % 64, rq, None)
+                    e = sym_event(hx, rng.choice([1, 2, 3, 5, 6, 8, 13, 14]), p)
+                    own = [[e[0]] + ([e[1].hex()] if e[0] == 'F' else [])] + own
+                reqs.append({'rq': rq, 'routing': None, 'p': p.hex(), 'probe': is_probe, 'events': late + own})
+                continue
             cmd = rng.choice([1, 2, 0x33, 0x35, rng.randrange(256)])
             if cmd == 0x34:
                 cmd = 0x30
@@ -530,24 +596,27 @@ def run(ctx):
             reqs.append({'rq': rq, 'routing': routing, 'p': p.hex(),
                          'events': [[e[0]] + ([e[1].hex()] if e[0] == 'F' else []) for e in ev]})
             hist.append(h)
-        if kind == 'rmcp' and rng.random() < 0.2:
+        if kind == 'rmcp' and not probes and rng.random() < 0.2:
             h0 = request_header(kind, slave, (seq0 + 1) % 64, reqs[0]['rq'], reqs[0]['routing'])
             queue0 = [sym_event(h0, rng.choice([0, 1, 2, 5, 7, 11, 8]))[1].hex() for _ in range(rng.randrange(1, 4))]
         inp = {'kind': kind, 'mr': mr, 'ign': ign, 'slave': slave, 'seq0': seq0, 'queue0': queue0, 'reqs': reqs,
                'sdu_quirk': kind == 'rmcp' and rng.random() < 0.3}
         recs, fseq, unread = run_sequence(inp)
-        res.evaluations += nreq
+        res.evaluations += len(reqs)
         exp = C.c_list(['(%s, %s, %s)' % (c_res(r['result']), C.c_list([C.c_hex(s) for s in r['sent']]), C.c_nat(r['qlen']))
                         for r in recs])
-        rq_terms = C.c_list(['(%s, %s, %s, %s)' % (nl(r['rq']), C.c_list([nl(x) for x in (r['routing'] or [])]),
-                                                   C.c_hex(bytes.fromhex(r['p'])),
-                                                   C.c_list([c_event(tuple([e[0]] + ([bytes.fromhex(e[1])] if e[0] == 'F' else [])))
-                                                             for e in r['events']]))
-                             for r in reqs])
-        add('chk_seq %s %s %s %d %d %s %s %s %d %s' % (
+
+        def ev_term(e):
+            return '(Frame %s)' % C.c_hex(e[1]) if e[0] == 'F' else 'OsError' if e[0] == 'E' else 'Nothing'
+        st_terms = C.c_list(['(%d, %s, %s, %s, %s)' % (1 if r.get('probe') else 0, nl(r['rq']),
+                                                       C.c_list([nl(x) for x in (r['routing'] or [])]),
+                                                       C.c_hex(bytes.fromhex(r['p'])),
+                                                       C.c_list([ev_term(e) for e in rec['own']]))
+                             for r, rec in zip(reqs, recs)])
+        add('chk_steps %s %s %s %d %d %s %s %s %d %s' % (
             COQ_KIND[kind], C.c_nat(mr), C.c_bool(ign), slave, seq0, C.c_list([C.c_hex(bytes.fromhex(x)) for x in queue0]),
-            rq_terms, exp, fseq, C.c_nat(unread)), ('sequence', inp))
-        D.add(('seq', repr(inp)), True, 'sequence-%s-%dreq%s' % (kind, nreq, '-bridged' if bridged else ''))
+            st_terms, exp, fseq, C.c_nat(unread)), ('sequence', inp))
+        D.add(('seq', repr(inp)), True, 'sequence-%s-%dreq%s' % (kind, nreq, '-bridged' if bridged else '-probes' if probes else ''))
         for key, msg in judge_sequence(inp, recs):
             if key in fails:
                 continue
